@@ -665,7 +665,7 @@ def spec_failures(case, tabs, sel):
                                   f"computed measure and is not returned ({out}): the n_best best features of EACH "
                                   f"measure must be returned (ranking of this measure by another one?)"))
         n = t["n"]
-        for f in names:
+        for f in (names if t.get("cs") is None else []):  # colsample < 1: pre-selection per sample
             if f in out:
                 continue
             r = row[f]
@@ -1308,6 +1308,32 @@ def add_second_call(rng, case):
     return case
 
 
+def gen_colsample_case(rng):
+    """colsample < 1 (mostly 0.5): the per-sample winners are at most n_best, thresh_corr < 1 and a
+    highly correlated pair that the shuffle may split over two samples: the FINAL selection over the
+    winners must still order by decreasing measure and apply the filter across samples"""
+    n = rng.choice([20, 30, 40])
+    k = rng.choice([2, 2, 3])
+    y = [i % k for i in range(n)]
+    rng.shuffle(y)
+    cs = rng.choice([0.5, 0.5, 0.5, 0.34, 0.25])
+    nq = rng.choice([4, 5, 6, 7])
+    quanti = []
+    for _ in range(nq - 2):
+        quanti.append([rng.choice([0, 1, 2, 3]) * v + rng.randint(0, rng.choice([3, 5, 8])) for v in y])
+    base = [3 * v + rng.randint(0, 2) for v in y]                    # strongly informative ...
+    twin = [2 * b + 1 if rng.random() < 0.9 else 2 * b + 2 for b in base]  # ... and its near copy
+    quanti += [base, twin]
+    order = list(range(nq))
+    rng.shuffle(order)
+    case = mk_case("classification", y, [quanti[i] for i in order], [], rng.choice([2, 3, 4, nq]),
+                   None, None, rng.choice([None, ["spearman"], ["pearson"]]), None,
+                   {"thresh_corr": rng.choice([0.5, 0.7, 0.8, 0.9])})
+    case["colsample"] = float(cs).hex()
+    case["rseed"] = rng.randrange(10 ** 6)
+    return case
+
+
 def gen_boundary_case(rng):
     """associations exactly equal to thresh_corr without a tie of the ranking measure: a
     qualitative feature and a coarsening of it (Cramer's V = 1), a quantitative feature and its
@@ -1576,7 +1602,9 @@ class C14(Prop):
             "([iqr_measure, kruskal|R], thresh_iqr < 1) on discrete features whose decision depends on the "
             "quantile interpolation rule. A case is non-trivial when at least one feature is returned or left out for a recorded "
             "reason; distinct = distinct (task, measures, filters, per-type drop reasons, #returned)")
-    assumptions = ["colsample = 1.0 (colsample < 1 shuffles with the global random module: excluded)",
+    assumptions = ["colsample < 1: the shuffled feature order (random.shuffle) is an oracle read back from the real "
+                   "run; order, distinctness, count and pairwise independence of the final list are required, "
+                   "maximality is not (n_best // 2 features are pre-selected per sample)",
                    "numeric data are integers or dyadic rationals (every exact value is a Fraction); "
                    "measure values are recomputed exactly and compared with the implementation's "
                    "floats within 1e-9; exact ties of a measure are accepted in any order",
@@ -1624,7 +1652,8 @@ class C14(Prop):
                 + [gen_quali_filter_case(rng) for _ in range(ns)]
                 + [gen_iqr_case(rng) for _ in range(ns)]
                 + [gen_tiny_case(rng) for _ in range(12 if tier == "quick" else 120)]
-                + [gen_inf_case(rng) for _ in range(12 if tier == "quick" else 120)])
+                + [gen_inf_case(rng) for _ in range(12 if tier == "quick" else 120)]
+                + [gen_colsample_case(rng) for _ in range(24 if tier == "quick" else 240)])
 
     def search_cases(self, rng, neighbours, rnd):
         return ([add_second_call(rng, gen_case(rng)) if i % 4 == 0 else gen_case(rng) for i in range(60)]
